@@ -26,7 +26,7 @@
 From Coq Require Import ZArith List Bool.
 From PBC Require Import Base.CInt Gen.LeafC Spec.Wire Impl.Desc Impl.Mem Impl.Enc Impl.Pack Impl.Unpack Impl.Canon
      Proofs.LeafDec Proofs.MsgRT4 Proofs.Merge Proofs.Commute Proofs.Reorder Proofs.PrefixStable Proofs.Records Proofs.Examples Impl.SpecParse.
-From PBC Require Proofs.LeafSafe Proofs.Required Proofs.SpecRefine0 Proofs.SpecRefine5.
+From PBC Require Proofs.LeafSafe Proofs.Required Proofs.SpecRefine0 Proofs.SpecRefine5 Proofs.SpecCanon4.
 Import ListNotations.
 Local Open Scope Z_scope.
 
@@ -171,3 +171,12 @@ Theorem C04_laxer_specification_is_not_refined :
        SpecRefine0.Lax.spec_parse_top E d b = Some m -> unpack_top E d b = Ok m).
 Proof. exact SpecRefine0.lax_not_refined. Qed.
 Print Assumptions C04_laxer_specification_is_not_refined.
+
+(* the specification is not vacuous on any canonical encoding: it reads what pack writes for EVERY canonical message back
+   to that message (so, with the theorem above, the specification-level route gives the round trip of C01 once more) *)
+Theorem C04_specification_reads_every_canonical_encoding : forall (E : env) (m : msg) (b : list Z),
+  env_ok E = true -> canon_msg E m = true -> unk_strict m = true ->
+  pack_msg E m = Ok b -> Mem.zlen b <= 268435425 ->
+  spec_parse_top E (m_desc m) b = Some m.
+Proof. exact SpecCanon4.spec_reads_canonical. Qed.
+Print Assumptions C04_specification_reads_every_canonical_encoding.
